@@ -326,3 +326,18 @@ impl<const TAG: u8> MergeWithError<ValErr> for Rec<TAG> {
         foreign(self_, ForeignSrc::Validate { sum: other.sum }, merge_location)
     }
 }
+
+/// An error type without any bookkeeping (always stops, holds nothing): for sweeps whose verdict is
+/// only "accepted or refused" and whose volume forbids logging every report.
+#[derive(Debug, Clone, Copy, PartialEq, Eq)]
+pub struct Cheap;
+impl deserr::DeserializeError for Cheap {
+    fn error<V: deserr::IntoValue>(_self_: Option<Self>, _error: deserr::ErrorKind<V>, _location: ValuePointerRef) -> ControlFlow<Self, Self> {
+        ControlFlow::Break(Cheap)
+    }
+}
+impl MergeWithError<Cheap> for Cheap {
+    fn merge(_self_: Option<Self>, other: Cheap, _merge_location: ValuePointerRef) -> ControlFlow<Self, Self> {
+        ControlFlow::Break(other)
+    }
+}
